@@ -63,6 +63,7 @@ From ORatio Require Import smt.SatCoreBase smt.SatCoreSpec smt.SatCore
   proofs.SatCoreInv_Proofs proofs.SatCoreRun_Proofs proofs.SatCoreThm_Proofs proofs.SatCoreTh_Proofs proofs.SatCoreUndo_Proofs proofs.SatCoreWlThm_Proofs smt.SatCoreOv proofs.SatCoreOv_Proofs.
 From ORatio Require smt.DlDom smt.Dl smt.DlInst smt.DlAdapter proofs.DlOrd_Proofs proofs.DlSpec_Proofs proofs.DlAdapter_Proofs
   proofs.DlHist_Proofs proofs.DlIdl_Proofs proofs.DlRdl_Proofs.
+From ORatio Require smt.Lra smt.LraAdapter proofs.LraAdapter_Proofs.
 Import ListNotations.
 
 (* the assignment vector is a function of the trail alone, after ANY history *)
@@ -288,3 +289,32 @@ Proof.
   - vm_compute. repeat split; reflexivity.
 Qed.
 Print Assumptions C08_sat_idl_example.
+
+(* the assembled theorem for sat_core + lra_theory (smt/LraAdapter.v, proofs/LraAdapter_Proofs.v): the observation is the
+   bound vector (value AND reason of every lower / upper bound - hence lb / ub / bounds(lin)); the simplex point and the
+   tableau are deliberately NOT part of it (a pop does not restore them: C09_pop_keeps_values_on_rows, and the recorded
+   finding about basis-dependent propagation).  No undo hypothesis is left (lra_th_undo, invariant = LraInv_Proofs.wf,
+   preserved by the four theory functions for any assignment sat_core passes); _partial for the same reason as idl / rdl:
+   theory_contract quantifies over every SAT state whatever the theory state is, and `ub = false` is a premise. *)
+Theorem C08_pop_after_assume_restores_sat_lra_partial : forall (T : asg -> Prop) fuel ts0 ops,
+  theory_contract T LraAdapter.lra_thp LraAdapter.lra_thc ->
+  LraAdapter_Proofs.lra_inv ts0 ->
+  LraAdapter.lrn_run_ok fuel ops (LraAdapter.lrn_init ts0) = true ->
+  ub (LraAdapter.lrn_run fuel ops (LraAdapter.lrn_init ts0)) = false ->
+  forall p s', pre (LraAdapter.lrn_run fuel ops (LraAdapter.lrn_init ts0)) (OAssume p) = true ->
+  LraAdapter.lrn_assume fuel (LraAdapter.lrn_run fuel ops (LraAdapter.lrn_init ts0)) p = (s', RTrue) ->
+  log s' = log (LraAdapter.lrn_run fuel ops (LraAdapter.lrn_init ts0)) ->
+  restored _ LraAdapter.lra_obs (LraAdapter.lrn_run fuel ops (LraAdapter.lrn_init ts0)) (LraAdapter.lrn_pop s') /\
+  Lra.nvars (thst (LraAdapter.lrn_pop s')) = Lra.nvars (thst (LraAdapter.lrn_run fuel ops (LraAdapter.lrn_init ts0))) /\
+  (forall x, x < Lra.nvars (thst (LraAdapter.lrn_run fuel ops (LraAdapter.lrn_init ts0))) ->
+     Lra.cb (thst (LraAdapter.lrn_pop s')) (Lra.lb_index x) = Lra.cb (thst (LraAdapter.lrn_run fuel ops (LraAdapter.lrn_init ts0))) (Lra.lb_index x) /\
+     Lra.cb (thst (LraAdapter.lrn_pop s')) (Lra.ub_index x) = Lra.cb (thst (LraAdapter.lrn_run fuel ops (LraAdapter.lrn_init ts0))) (Lra.ub_index x)).
+Proof. exact LraAdapter_Proofs.c08_pop_assume_sat_lra. Qed.
+Print Assumptions C08_pop_after_assume_restores_sat_lra_partial.
+
+(* the undo law itself, for any theory state satisfying the LRA invariant and any sequence of propagate / check calls *)
+Theorem C08_lra_theory_undo : forall ts0 ts, LraAdapter_Proofs.lra_inv ts0 ->
+  th_reach LraAdapter.lra_thp LraAdapter.lra_thc (LraAdapter.lra_thpush ts0) ts ->
+  LraAdapter.lra_obs (LraAdapter.lra_thpop ts) = LraAdapter.lra_obs ts0.
+Proof. exact LraAdapter_Proofs.lra_th_undo. Qed.
+Print Assumptions C08_lra_theory_undo.
